@@ -1,21 +1,35 @@
 /-
-  PrtpyProofs.MultiFit122B — further structure of counter-examples of first-fit-decreasing with capacity `B ≥ T`
-  (continuation of PrtpyProofs.MultiFit122; the unconditional `61/50` theorem for every `k` is still **open**).
+  PrtpyProofs.MultiFit122B — continuation of PrtpyProofs.MultiFit122 (multifit's `1.22` ratio, Coffman, Garey,
+  Johnson 1978).  The unconditional theorem `multifit_ratio_122` for every `k` is still **open**; proved here:
 
-  1. Domination in general: `packable_of_dom` (if the values `O` are pointwise below some of the values `L`, and
-     `O ++ X` is a rearrangement of `L ++ R`, a schedule of `X` yields a schedule of `R`), `ce_drop_of_dominated`,
-     `sce_drop_of_dominated`, `irred_not_dominated`: **in an irreducible counter-example no bin of a `T`-schedule
-     (with any number of items) is dominated by a bin of the packing.**
-  2. The full rule: `strong_later_nofit` (an item of a later bin does not fit into an earlier bin as it is at the
-     end).
-  3. Classes of items in a tight counter-example: `tight_pair_big` (a bin with two items holds two *big* items,
-     `> B − T + a`), `two_bigs_exceed` (for `B ≥ 6/5·T`, two big items and `a` exceed `T`: a bin of a `T`-schedule
-     holds at most one big item), `big_companions` (the companions of a big item in a `T`-bin sum to less than
-     `2T − B − a`).
-  4. The upper half of the band (`T < 4a`): `irred_opt_bins_eq_three` (every bin of every `T`-schedule holds
-     exactly three items), `irred_card_eq` (`3k − 1` packed items), `irred_two_four` (bins hold 2, 3 or 4 items
-     and there is exactly one more bin with two items than bins with four), `ffd_overflow_irred_cap` (a failing
-     run yields an irreducible counter-example whose bins respect the capacity).
+  A. Ratios of multifit:
+     * `multifit_ratio_122_k8`: **`61/50 + 2^−it` for `k ≤ 8`**, unconditional in the input (from
+       `irred_window_false` / `irred_seven_eight_false`: no irreducible counter-example with seven or eight bins; `k ≤ 6` is
+       `MultiFit122.tight_small_k`);  `ffd_fold_fits_122_k8`, `ffd_fits_122_k8`, `ffdFits_122_k8`;
+     * `multifit_ratio_11_9_k9`: `11/9 + 2^−it` for `k ≤ 9`;  `multifit_ratio_16_13_k12`: `16/13 + 2^−it` for
+       `k ≤ 12`;  `multifit_ratio_6_5_k5`: `6/5 + 2^−it` for `k ≤ 5` (all from `irred_window_false` and the generic
+       pipeline `ffdFits_of_no_irred`);
+     * `multifit_ratio_122_partial_k`: `61/50 + 2^−it` for every `k`, for inputs without an item strictly between
+       `0.22·k/(k−1)·OPT` and `0.26·OPT` (contains `MultiFit122.multifit_ratio_122_partial`);
+       `ffd_fold_fits_of_no_band_k`, `ffd_fits_of_no_band_k`, `ffdFits_122_of_no_band_k`.
+     Open: `k ≥ 9` with a failing item in the band `0.22·k/(k−1)·OPT < a < 0.26·OPT`.
+
+  B. Structure of counter-examples:
+     1. Domination in general: `packable_of_dom` (if the values `O` are pointwise below some of the values `L`,
+        and `O ++ X` is a rearrangement of `L ++ R`, a schedule of `X` yields a schedule of `R`),
+        `ce_drop_of_dominated`, `sce_drop_of_dominated`, `irred_not_dominated`: **in an irreducible
+        counter-example no bin of a `T`-schedule (with any number of items) is dominated by a bin of the
+        packing.**
+     2. The full rule: `strong_later_nofit`.
+     3. Classes of items in a tight counter-example: `tight_pair_big` (a bin with two items holds two *big*
+        items, `> B − T + a`), `two_bigs_exceed`, `opt_bin_one_big` (for `B ≥ 6/5·T` a bin of a `T`-schedule
+        holds at most one big item), `big_companions` (the companions of a big item in a `T`-bin sum to less than
+        `2T − B − a`).
+     4. The upper half of the band (`T < 4a`): `irred_opt_bins_eq_three` (every bin of every `T`-schedule holds
+        exactly three items), `irred_card_eq` (`3k − 1` packed items), `irred_two_four` (bins hold 2, 3 or 4
+        items and there is exactly one more bin with two items than bins with four), `ffd_overflow_irred_cap`
+        (a failing run yields an irreducible counter-example whose bins respect the capacity).
+     5. `ce_level_window`: `level + (k − 1)·(B + 1 − a) + a ≤ k·T` for every bin.
 -/
 import Mathlib.Data.List.Sort
 import Mathlib.Data.List.Perm.Basic
@@ -374,7 +388,432 @@ theorem multifit_ratio_122_partial_k {k : Nat} {items : List α} {it : Nat} {b :
 
 end BandK
 
-/-! ## 6. Non-vacuity -/
+/-! ## 6. The window of the levels
+
+Every bin of a counter-example is filled above `B − a`; as everything fits into `k` bins of capacity `T`, no bin
+can be filled much higher: `level + (k − 1)·(B + 1 − a) + a ≤ k·T`.
+
+(How this is meant to be used, e.g. for `k = 7`, `B = 1.22·T`, `0.2567·T < a < 0.26·T`, `T = 1`: the window is
+`(0.96, 0.985)`; a bin with four items has level `≥ 4a > 1.02`, a bin with two big items and a third item has
+level `≥ 2·(0.22 + a) + a > 1.2`, a bin with one big item and two others `≥ 0.22 + 3a > 0.99`: so by
+`irred_two_four` the packing is one bin `(f, g)` of two big items and six bins of three items `< 0.48`.  By the
+full rule (`strong_later_nofit` / `FFDStrong.rule`) every item of the bins `2..6` is at most the smallest item
+`w < 0.3283` of bin `1`, hence `> 0.96 − 2w > 0.30`.  But the `T`-bins of `f` and `g` hold four further items
+`< 0.78 − 2a < 0.267` (`big_companions`), three of them packed, necessarily all in bin `1`, whose level would be
+`< 0.81`.  This is `irred_seven_eight_false` below.) -/
+
+theorem ce_level_window {v : α → Nat} {T B k : Nat} {LL : List (List α)} {a : α} (h : CE v T B k LL a)
+    {l : List α} (hl : l ∈ LL) :
+    binSum v l + (k - 1) * (B + 1) + v a ≤ k * T + (k - 1) * v a := by
+  obtain ⟨s, t, rfl⟩ := List.append_of_mem hl
+  have hlen := h.len
+  simp only [List.length_append, List.length_cons] at hlen
+  have h1 : ∀ x ∈ (s ++ t).map (binSum v), B + 1 ≤ x + v a := by
+    intro x hx
+    obtain ⟨l', hl', rfl⟩ := List.mem_map.1 hx
+    have : l' ∈ s ++ l :: t := by
+      rcases List.mem_append.1 hl' with h' | h'
+      · exact List.mem_append_left _ h'
+      · exact List.mem_append_right _ (List.mem_cons_of_mem _ h')
+    have := h.nofit l' this
+    omega
+  have h2 := Part.length_mul_le_sumL _ (B + 1) (v a) h1
+  rw [Fit.sumL_map_binSum] at h2
+  have h3 := packable_sum h.pack
+  rw [List.map_append, Part.sumL_append] at h3
+  simp only [List.length_map, List.length_append] at h2
+  have e0 : k - 1 = s.length + t.length := by omega
+  have e1 : binSum v (s ++ l :: t).flatten = binSum v l + binSum v (s ++ t).flatten := by
+    simp only [List.flatten_append, List.flatten_cons, Fit.binSum_append]
+    omega
+  have e2 : sumL ((s ++ l :: t).flatten.map v) = binSum v (s ++ l :: t).flatten := rfl
+  simp only [List.map_cons, List.map_nil, sumL] at h3
+  rw [e0]
+  omega
+
+/-! ## 6b. Seven and eight bins -/
+
+/-- a *tiny* value: it can share a bin of a `T`-schedule with a big value and a further item -/
+def tinyV (T B a : Nat) (x : Nat) : Bool := decide (x + B + 2 * a < 2 * T)
+
+theorem countP_flatten_one {β : Type} (P : β → Bool) (LL : List (List β)) (j : Nat) (hj : j < LL.length)
+    (h0 : ∀ (i : Nat) (l : List β), LL[i]? = some l → i ≠ j → ∀ x ∈ l, P x = false) :
+    LL.flatten.countP P = LL[j].countP P := by
+  have p1 := flatten_perm_getElem_eraseIdx LL j hj
+  rw [p1.countP_eq, List.countP_append]
+  have : (LL.eraseIdx j).flatten.countP P = 0 := by
+    rw [List.countP_eq_zero]
+    intro x hx
+    obtain ⟨l, hl, hxl⟩ := List.mem_flatten.1 hx
+    obtain ⟨i, hij, hli⟩ := List.mem_eraseIdx_iff_getElem?.1 hl
+    simp [h0 i l hli hij x hxl]
+  omega
+
+/-- **No irreducible counter-example with seven or eight bins** for a capacity `B > 61/50 · T − 1` (bins within
+    the capacity); likewise with 8 or 9 bins for `B > 11/9 · T − 1`, and with 11 or 12 bins for
+    `B > 16/13 · T − 1`, and with 5 bins for `B > 6/5 · T − 1`.  The window of the levels excludes bins of four items, so there is a bin of two (big) items
+    and a bin of three; by the full rule the items of the bins of three after the first one are at most its
+    smallest item, hence too large to be tiny; so the first bin of three would hold three tiny items (the
+    companions of the two big items in the `T`-schedule), and its level would be too low. -/
+theorem irred_window_false {v : α → Nat} {T B k : Nat} (hTB : T ≤ B)
+    (hcase : (61 * T < 50 * (B + 1) ∧ (k = 7 ∨ k = 8)) ∨ (11 * T < 9 * (B + 1) ∧ (k = 8 ∨ k = 9)) ∨
+      (16 * T < 13 * (B + 1) ∧ (k = 11 ∨ k = 12)) ∨ (6 * T < 5 * (B + 1) ∧ k = 5))
+    {LL : List (List α)} {a : α} (h : Irred v T B k LL a)
+    (hcap : ∀ l ∈ LL, binSum v l ≤ B) : False := by
+  rcases hcase with ⟨hB, rfl | rfl⟩ | ⟨hB, rfl | rfl⟩ | ⟨hB, rfl | rfl⟩ | ⟨hB, rfl⟩
+  all_goals
+    have ht := irred_tight hTB h
+    have hce := h.1.toCE
+    have hvol := ce_volume hce
+    have h3a := tight_three_le hTB ht.toTight
+    have haT := hce.item_le
+    have hband := ce_band hTB hce
+    have ha4 : T < 4 * v a := by omega
+    have hb : B + 3 * v a < 2 * T := by omega
+    obtain ⟨h24, hcount⟩ := irred_two_four hTB h ha4 (by omega) hcap
+    have hwin := fun l (hl : l ∈ LL) => ce_level_window hce hl
+    simp only [Nat.add_one_sub_one] at hwin
+    have hmin : ∀ l ∈ LL, ∀ p ∈ l, v a ≤ v p :=
+      fun l hl p hp => hce.amin p (List.mem_flatten.2 ⟨l, hl, hp⟩)
+    have htop : ∀ l ∈ LL, ∀ p ∈ l, v p + 2 * v a ≤ T :=
+      fun l hl p hp => ht.top p (List.mem_flatten.2 ⟨l, hl, hp⟩)
+    -- no bin with four items
+    have hno4 : ∀ l ∈ LL, l.length ≠ 4 := by
+      intro l hl h4
+      have h1 := Part.length_mul_le_sumL (l.map v) (v a) 0 (fun y hy => by
+        obtain ⟨p, hp, rfl⟩ := List.mem_map.1 hy
+        have := hmin l hl p hp; omega)
+      have h2 := hwin l hl
+      simp only [List.length_map, h4] at h1
+      have e : binSum v l = sumL (l.map v) := rfl
+      omega
+    have hc4 : LL.countP (fun l => decide (l.length = 4)) = 0 := by
+      rw [List.countP_eq_zero]
+      intro l hl
+      simpa using hno4 l hl
+    have hc2 : LL.countP (fun l => decide (l.length = 2)) = 1 := by omega
+    have hlen23 : ∀ l ∈ LL, l.length = 2 ∨ l.length = 3 := by
+      intro l hl
+      have := h24 l hl; have := hno4 l hl; omega
+    -- bins of two hold big items, bins of three do not
+    have hpair : ∀ l ∈ LL, l.length = 2 → ∀ p ∈ l, B + v a < v p + T := by
+      intro l hl h2 p hp
+      match l, h2, hl, hp with
+      | [x, y], _, hl, hp =>
+        obtain ⟨bx, by'⟩ := tight_pair_big ht.toTight hl
+        simp only [List.mem_cons, List.not_mem_nil, or_false] at hp
+        rcases hp with rfl | rfl
+        · exact bx
+        · exact by'
+    -- a bin of two and a bin of three
+    obtain ⟨l2, hl2, hl2len⟩ : ∃ l ∈ LL, l.length = 2 := by
+      have : 0 < LL.countP (fun l => decide (l.length = 2)) := by omega
+      obtain ⟨l, hl, hp⟩ := List.countP_pos_iff.1 this
+      exact ⟨l, hl, by simpa using hp⟩
+    obtain ⟨l3, hl3, hl3len⟩ : ∃ l ∈ LL, l.length = 3 := by
+      apply Classical.byContradiction
+      intro hno
+      have hall : ∀ l ∈ LL, decide (l.length = 2) = true := by
+        intro l hl
+        rcases hlen23 l hl with h2 | h3
+        · simpa using h2
+        · exact absurd ⟨l, hl, h3⟩ hno
+      have := List.countP_eq_length.2 hall
+      have := hce.len
+      omega
+    -- the first bin of three
+    obtain ⟨j0, hj0, e3⟩ := List.mem_iff_getElem.1 hl3
+    obtain ⟨j1, ⟨l1, hl1, hl1len⟩, hleast⟩ :=
+      exists_least (P := fun (j : Nat) => ∃ l : List α, LL[j]? = some l ∧ l.length = 3) j0
+        ⟨LL[j0], List.getElem?_eq_getElem hj0, by rw [e3]; exact hl3len⟩
+    have hl1mem := List.mem_of_getElem? hl1
+    have hsort := ht.strong.sorted l1 hl1mem
+    match l1, hl1len, hl1, hl1mem, hsort with
+    | [hh, s, w], _, hl1, hl1mem, hsort =>
+    have hs1 : v s ≤ v hh := (List.pairwise_cons.1 hsort).1 s (by simp)
+    have hs2 : v w ≤ v s := (List.pairwise_cons.1 (List.pairwise_cons.1 hsort).2).1 w (by simp)
+    have hwin1 := hwin _ hl1mem
+    have hnf1 := hce.nofit _ hl1mem
+    simp only [binSum, List.map_cons, List.map_nil, sumL] at hwin1 hnf1
+    have hwa := hmin _ hl1mem w (by simp)
+    have hh1 := htop _ hl1mem hh (by simp)
+    -- no item outside this bin is tiny
+    have hnt : ∀ (i : Nat) (l : List α), LL[i]? = some l → i ≠ j1 → ∀ p ∈ l,
+        tinyV T B (v a) (v p) = false := by
+      intro i l hli hne p hp
+      have hl := List.mem_of_getElem? hli
+      simp only [tinyV, decide_eq_false_iff_not]
+      intro htiny
+      rcases hlen23 l hl with h2 | h3
+      · have := hpair l hl h2 p hp
+        omega
+      · have hij : j1 < i := by
+          rcases Nat.lt_or_ge i j1 with hlt | hge
+          · exact absurd ⟨l, hli, h3⟩ (hleast i hlt)
+          · omega
+        have hle_w : ∀ q ∈ l, v q ≤ v w := by
+          intro q hq
+          apply Nat.le_of_not_lt
+          intro hlt
+          have hr := ht.strong.rule j1 i [hh, s, w] l q hij hl1 hli hq
+          have hq1 := htop l hl q hq
+          have hnw : ¬ v q ≤ v w := by omega
+          by_cases c1 : v q ≤ v hh <;> by_cases c2 : v q ≤ v s <;>
+            simp [c1, c2, hnw, binSum, sumL] at hr <;> omega
+        have hnf := hce.nofit _ hl
+        match l, h3, hl, hp, hle_w, hnf with
+        | [p1, p2, p3], _, hl, hp, hle_w, hnf =>
+          simp only [binSum, List.map_cons, List.map_nil, sumL] at hnf
+          have := hle_w p1 (by simp)
+          have := hle_w p2 (by simp)
+          have := hle_w p3 (by simp)
+          simp only [List.mem_cons, List.not_mem_nil, or_false] at hp
+          rcases hp with rfl | rfl | rfl <;> omega
+    have hj1 : j1 < LL.length := (List.getElem?_eq_some_iff.1 hl1).1
+    have hLj1 : LL[j1] = [hh, s, w] := (List.getElem?_eq_some_iff.1 hl1).2
+    have hcLL := countP_flatten_one (fun x => tinyV T B (v a) (v x)) LL j1 hj1 hnt
+    rw [hLj1] at hcLL
+    -- the schedule: the bins of the two big items hold four tiny values
+    obtain ⟨Q, hQk, hQp, hQ⟩ := packable_partition hce.pack
+    have hQ3 := irred_opt_bins_eq_three hTB h ha4 Q hQk hQp hQ
+    have hge : ∀ O ∈ Q, ∀ u ∈ O, v a ≤ u := by
+      intro O hO u hu
+      obtain ⟨p, hp, rfl⟩ := List.mem_map.1 (hQp.mem_iff.1 (List.mem_flatten.2 ⟨O, hO, hu⟩))
+      rcases List.mem_append.1 hp with hp | hp
+      · exact hce.amin p hp
+      · simp only [List.mem_singleton] at hp; subst hp; exact Nat.le_refl _
+    have hbigbin : ∀ O ∈ Q, ∀ b ∈ O, B + v a < b + T →
+        (∀ c ∈ O.erase b, ¬ (B + v a < c + T)) ∧ 2 ≤ (O.erase b).countP (tinyV T B (v a)) := by
+      intro O hO b hb' hbig
+      have pO := List.perm_cons_erase hb'
+      have hlenO : (O.erase b).length = 2 := by
+        have := pO.length_eq; rw [hQ3 O hO] at this; simp only [List.length_cons] at this; omega
+      have hsum := hQ O hO
+      rw [Part.sumL_perm pO] at hsum
+      have hmem : ∀ c ∈ O.erase b, v a ≤ c := fun c hc => hge O hO c (List.mem_of_mem_erase hc)
+      match hOe : O.erase b, hlenO with
+      | [p, q], _ =>
+        rw [hOe] at hsum hmem
+        have := hmem p (by simp)
+        have := hmem q (by simp)
+        simp only [sumL] at hsum
+        constructor
+        · intro c hc
+          simp only [List.mem_cons, List.not_mem_nil, or_false] at hc
+          rcases hc with rfl | rfl <;> omega
+        · have tp : tinyV T B (v a) p = true := by simp only [tinyV, decide_eq_true_eq]; omega
+          have tq : tinyV T B (v a) q = true := by simp only [tinyV, decide_eq_true_eq]; omega
+          simp [tp, tq]
+    match l2, hl2len, hl2 with
+    | [x, y], _, hl2 =>
+    obtain ⟨bx, by'⟩ := tight_pair_big ht.toTight hl2
+    obtain ⟨j2, hj2, e2⟩ := List.mem_iff_getElem.1 hl2
+    have psplit : ((LL.flatten ++ [a]).map v).Perm
+        (v x :: v y :: ((LL.eraseIdx j2).flatten ++ [a]).map v) := by
+      have := ce_split (List.getElem?_eq_getElem hj2) a v
+      rw [e2] at this
+      exact this
+    have hfQ : v x ∈ Q.flatten := (hQp.trans psplit).mem_iff.2 (by simp)
+    obtain ⟨Of, hOf, hfOf⟩ := List.mem_flatten.1 hfQ
+    have pQ := List.perm_cons_erase hOf
+    have pOf := List.perm_cons_erase hfOf
+    have hZ : Q.flatten.Perm (v x :: (Of.erase (v x) ++ (Q.erase Of).flatten)) := by
+      refine pQ.flatten.trans ?_
+      simp only [List.flatten_cons]
+      exact pOf.append_right _
+    have hg : v y ∈ Of.erase (v x) ++ (Q.erase Of).flatten :=
+      ((hZ.symm.trans (hQp.trans psplit)).cons_inv).mem_iff.2 (by simp)
+    obtain ⟨hf1, hf2⟩ := hbigbin Of hOf (v x) hfOf bx
+    have hg' : v y ∈ (Q.erase Of).flatten := by
+      rcases List.mem_append.1 hg with hg | hg
+      · exact absurd by' (hf1 _ hg)
+      · exact hg
+    obtain ⟨Og, hOg, hgOg⟩ := List.mem_flatten.1 hg'
+    obtain ⟨_, hg2⟩ := hbigbin Og (List.mem_of_mem_erase hOg) (v y) hgOg by'
+    have pQ2 := List.perm_cons_erase hOg
+    have pOg := List.perm_cons_erase hgOg
+    have hcQ : 4 ≤ Q.flatten.countP (tinyV T B (v a)) := by
+      have e1 : Q.flatten.countP (tinyV T B (v a)) =
+          Of.countP (tinyV T B (v a)) + (Q.erase Of).flatten.countP (tinyV T B (v a)) := by
+        rw [pQ.flatten.countP_eq, List.flatten_cons, List.countP_append]
+      have e2' : (Q.erase Of).flatten.countP (tinyV T B (v a)) =
+          Og.countP (tinyV T B (v a)) + ((Q.erase Of).erase Og).flatten.countP (tinyV T B (v a)) := by
+        rw [pQ2.flatten.countP_eq, List.flatten_cons, List.countP_append]
+      have e3' : (Of.erase (v x)).countP (tinyV T B (v a)) ≤ Of.countP (tinyV T B (v a)) := by
+        rw [pOf.countP_eq, List.countP_cons]; omega
+      have e4' : (Og.erase (v y)).countP (tinyV T B (v a)) ≤ Og.countP (tinyV T B (v a)) := by
+        rw [pOg.countP_eq, List.countP_cons]; omega
+      omega
+    have hcAll : 3 ≤ LL.flatten.countP (fun x => tinyV T B (v a) (v x)) := by
+      have e1 := hQp.countP_eq (tinyV T B (v a))
+      rw [List.map_append, List.countP_append, List.countP_map] at e1
+      have e2' : ([a].map v).countP (tinyV T B (v a)) ≤ 1 := by
+        have := List.countP_le_length (p := tinyV T B (v a)) (l := [a].map v)
+        simpa using this
+      have e3' : LL.flatten.countP (tinyV T B (v a) ∘ v) = LL.flatten.countP (fun x => tinyV T B (v a) (v x)) := rfl
+      omega
+    have hall3 : ∀ q ∈ [hh, s, w], tinyV T B (v a) (v q) = true := by
+      have h1 := List.countP_le_length (p := fun x => tinyV T B (v a) (v x)) (l := [hh, s, w])
+      simp only [List.length_cons, List.length_nil] at h1
+      have h2 : [hh, s, w].countP (fun x => tinyV T B (v a) (v x)) = [hh, s, w].length := by
+        simp only [List.length_cons, List.length_nil]; omega
+      exact List.countP_eq_length.1 h2
+    have t1 := hall3 hh (by simp)
+    have t2 := hall3 s (by simp)
+    have t3 := hall3 w (by simp)
+    simp only [tinyV, decide_eq_true_eq] at t1 t2 t3
+    omega
+
+theorem irred_seven_eight_false {v : α → Nat} {T B k : Nat} (hk : k = 7 ∨ k = 8) (hTB : T ≤ B)
+    (hB : 61 * T < 50 * (B + 1)) {LL : List (List α)} {a : α} (h : Irred v T B k LL a)
+    (hcap : ∀ l ∈ LL, binSum v l ≤ B) : False :=
+  irred_window_false hTB (Or.inl ⟨hB, hk⟩) h hcap
+
+section EightBins
+variable (v : α → Nat)
+
+/-- **First-fit-decreasing with capacity above `61/50 · T` fits into `k ≤ 8` bins** whenever the values fit into
+    `k` bins of capacity `T`. -/
+theorem ffd_fold_fits_122_k8 {k : Nat} (hk : 0 < k) (hk8 : k ≤ 8) {T B : Nat} (hTB : T ≤ B)
+    (hB : 61 * T < 50 * (B + 1)) (xs : List α) (hS : xs.Pairwise (fun a c => v c ≤ v a))
+    (hp : Packable T k (xs.map v)) (hall : ∀ x ∈ xs, v x ≤ B) :
+    (xs.foldl (ffStep v B) (Bins.new 1)).lists.length ≤ k := by
+  apply Nat.le_of_not_lt
+  intro hover
+  obtain ⟨a, _, k', LL, hk', hi, ht, hcap⟩ := ffd_overflow_irred_cap v hk hTB hS hp hall hover
+  rcases Nat.lt_or_ge k' 7 with h6 | h7
+  · exact tight_small_k hTB hB (by omega) ht.toTight
+  · exact irred_seven_eight_false (by omega) hTB hB hi hcap
+
+theorem ffd_fits_122_k8 {k : Nat} (hk : 0 < k) (hk8 : k ≤ 8) {xs : List α}
+    (hS : xs.Pairwise (fun a c => v c ≤ v a)) {T : Nat} (hp : Packable T k (xs.map v)) {B : Nat}
+    (hTB : T ≤ B) (hB : 61 * T < 50 * (B + 1)) {b : Bins α} (h : ffOnline v B xs = .ok b) :
+    b.lists.length ≤ k := by
+  simp only [ffOnline, Fit.ffLoop_eq] at h
+  have hall := Fit.gen_ok_all_le h
+  rw [Fit.genLoop_ok v B _ xs _ hall] at h
+  cases h
+  exact ffd_fold_fits_122_k8 v hk hk8 hTB hB xs hS hp hall
+
+/-- `FfdFits ρ` for every `ρ ≥ 61/50` and at most eight bins -/
+theorem ffdFits_122_k8 {k : Nat} (hk : 0 < k) (hk8 : k ≤ 8) {items : List α} {opt : Int}
+    (hopt : IsOptimalValue .minLargest k (items.map v) opt) {ρ : Rat} (hρ : 61 / 50 ≤ ρ) :
+    FfdFits v k (sortDesc v items) ρ opt := by
+  obtain ⟨T, rfl, hp⟩ := packable_of_opt hopt
+  have hsp := Part.sortDesc_perm v items
+  have hp' : Packable T k ((sortDesc v items).map v) := packable_perm (hsp.map v).symm hp
+  have hM : ∀ x ∈ sortDesc v items, v x ≤ T :=
+    fun x hx => packable_item_le hp' (List.mem_map_of_mem hx)
+  intro c hc
+  have hT0 : (0 : Rat) ≤ (T : Rat) := by positivity
+  have hc' : 61 / 50 * (T : Rat) ≤ c := by
+    push_cast at hc
+    nlinarith
+  obtain ⟨b', e', _, q2, _⟩ := Part.ffOnline_of_cap v (sortDesc v items) hM c (by linarith)
+  refine ⟨b'.sums.length, by simp only [ffCount, e']; rfl, ?_⟩
+  rw [Part.consistent_length v q2]
+  have hTB : T ≤ floorNat c := Part.le_floorNat T c (by linarith)
+  have hB := Part.lt_floorNat_succ (61 * T) 100 c (by omega) (by push_cast; linarith)
+  exact ffd_fits_122_k8 v hk hk8 (Part.sortDesc_sorted v items) hp' hTB (by omega) e'
+
+/-- **Multifit, `61/50 + 2^−it`, for at most eight bins** (unconditional in the input).  For `k ≥ 9` see
+    `multifit_ratio_122_partial_k`. -/
+theorem multifit_ratio_122_k8 {k : Nat} {items : List α} {it : Nat} {b : Bins α} (hk : 0 < k)
+    (hk8 : k ≤ 8) {opt : Int} (hopt : IsOptimalValue .minLargest k (items.map v) opt)
+    (h : multifit v k items it = .ok b) :
+    ((maxL b.sums : Nat) : Rat) ≤ (61 / 50 + 1 / 2 ^ it) * opt :=
+  multifit_ratio_of_ffdFits v hk hopt (by norm_num) (ffdFits_122_k8 v hk hk8 hopt (le_refl _)) h
+
+end EightBins
+
+section OtherConstants
+variable (v : α → Nat)
+
+/-- the generic pipeline: if no irreducible counter-example with at most `k` bins exists for the capacities
+    `B ≥ T` with `p·T < q·(B + 1)`, then `FfdFits ρ` holds for every `ρ ≥ p/q` -/
+theorem ffdFits_of_no_irred {k : Nat} (hk : 0 < k) {items : List α} {opt : Int}
+    (hopt : IsOptimalValue .minLargest k (items.map v) opt) {ρ : Rat} {p q : Nat} (hq : 0 < q) (hpq : q ≤ p)
+    (hρ : (p : Rat) / (q : Rat) ≤ ρ)
+    (hno : ∀ T B : Nat, T ≤ B → p * T < q * (B + 1) → ∀ k', k' ≤ k → ∀ (LL : List (List α)) (a : α),
+      Irred v T B k' LL a → (∀ l ∈ LL, binSum v l ≤ B) → False) :
+    FfdFits v k (sortDesc v items) ρ opt := by
+  obtain ⟨T, rfl, hp⟩ := packable_of_opt hopt
+  have hsp := Part.sortDesc_perm v items
+  have hp' : Packable T k ((sortDesc v items).map v) := packable_perm (hsp.map v).symm hp
+  have hM : ∀ x ∈ sortDesc v items, v x ≤ T :=
+    fun x hx => packable_item_le hp' (List.mem_map_of_mem hx)
+  intro c hc
+  have hT0 : (0 : Rat) ≤ (T : Rat) := by positivity
+  have hq' : (0 : Rat) < (q : Rat) := by exact_mod_cast hq
+  have hpq' : (q : Rat) ≤ (p : Rat) := by exact_mod_cast hpq
+  have h1 : (1 : Rat) ≤ (p : Rat) / (q : Rat) := by rw [le_div_iff₀ hq']; linarith
+  have hc1 : ρ * (T : Rat) ≤ c := by push_cast at hc; exact hc
+  have hc' : (p : Rat) / (q : Rat) * (T : Rat) ≤ c := le_trans (mul_le_mul_of_nonneg_right hρ hT0) hc1
+  have hTc : (T : Rat) ≤ c := by nlinarith
+  obtain ⟨b', e', _, q2, _⟩ := Part.ffOnline_of_cap v (sortDesc v items) hM c hTc
+  refine ⟨b'.sums.length, by simp only [ffCount, e']; rfl, ?_⟩
+  rw [Part.consistent_length v q2]
+  have hTB : T ≤ floorNat c := Part.le_floorNat T c hTc
+  have hlt := MultiFit122.lt_floorNat_add_one c
+  have h2 : (p : Rat) * (T : Rat) < (((floorNat c : Nat) : Rat) + 1) * (q : Rat) := by
+    have e : (p : Rat) / (q : Rat) * (T : Rat) = ((p : Rat) * (T : Rat)) / (q : Rat) := by ring
+    have h3 := lt_of_le_of_lt hc' hlt
+    rw [e, div_lt_iff₀ hq'] at h3
+    exact h3
+  have hB : p * T < q * (floorNat c + 1) := by
+    have : ((p * T : Nat) : Rat) < ((q * (floorNat c + 1) : Nat) : Rat) := by push_cast; linarith
+    exact_mod_cast this
+  -- the run
+  have h := e'
+  simp only [ffOnline, Fit.ffLoop_eq] at h
+  have hall := Fit.gen_ok_all_le h
+  rw [Fit.genLoop_ok v (floorNat c) _ _ _ hall] at h
+  cases h
+  apply Nat.le_of_not_lt
+  intro hover
+  obtain ⟨a, _, k', LL, hk', hi, _, hcap⟩ :=
+    ffd_overflow_irred_cap v hk hTB (Part.sortDesc_sorted v items) hp' hall hover
+  exact hno T (floorNat c) hTB hB k' hk' LL a hi hcap
+
+/-- **Multifit, `11/9 + 2^−it`, for at most nine bins.** -/
+theorem multifit_ratio_11_9_k9 {k : Nat} {items : List α} {it : Nat} {b : Bins α} (hk : 0 < k)
+    (hk9 : k ≤ 9) {opt : Int} (hopt : IsOptimalValue .minLargest k (items.map v) opt)
+    (h : multifit v k items it = .ok b) :
+    ((maxL b.sums : Nat) : Rat) ≤ (11 / 9 + 1 / 2 ^ it) * opt := by
+  refine multifit_ratio_of_ffdFits v hk hopt (by norm_num) ?_ h
+  refine ffdFits_of_no_irred v hk hopt (p := 11) (q := 9) (by decide) (by decide) (by norm_num) ?_
+  intro T B hTB hB k' hk' LL a hi hcap
+  rcases Nat.lt_or_ge k' 8 with h7 | h8
+  · exact tight_k hTB (k := 7) (by decide) (by omega) (irred_tight hTB hi).toTight (by omega)
+  · exact irred_window_false hTB (Or.inr (Or.inl ⟨hB, by omega⟩)) hi hcap
+
+/-- **Multifit, `16/13 + 2^−it`, for at most twelve bins.** -/
+theorem multifit_ratio_16_13_k12 {k : Nat} {items : List α} {it : Nat} {b : Bins α} (hk : 0 < k)
+    (hk12 : k ≤ 12) {opt : Int} (hopt : IsOptimalValue .minLargest k (items.map v) opt)
+    (h : multifit v k items it = .ok b) :
+    ((maxL b.sums : Nat) : Rat) ≤ (16 / 13 + 1 / 2 ^ it) * opt := by
+  refine multifit_ratio_of_ffdFits v hk hopt (by norm_num) ?_ h
+  refine ffdFits_of_no_irred v hk hopt (p := 16) (q := 13) (by decide) (by decide) (by norm_num) ?_
+  intro T B hTB hB k' hk' LL a hi hcap
+  rcases Nat.lt_or_ge k' 11 with h10 | h11
+  · exact tight_k hTB (k := 10) (by decide) (by omega) (irred_tight hTB hi).toTight (by omega)
+  · exact irred_window_false hTB (Or.inr (Or.inr (Or.inl ⟨hB, by omega⟩))) hi hcap
+
+/-- **Multifit, `6/5 + 2^−it`, for at most five bins.** -/
+theorem multifit_ratio_6_5_k5 {k : Nat} {items : List α} {it : Nat} {b : Bins α} (hk : 0 < k)
+    (hk5 : k ≤ 5) {opt : Int} (hopt : IsOptimalValue .minLargest k (items.map v) opt)
+    (h : multifit v k items it = .ok b) :
+    ((maxL b.sums : Nat) : Rat) ≤ (6 / 5 + 1 / 2 ^ it) * opt := by
+  refine multifit_ratio_of_ffdFits v hk hopt (by norm_num) ?_ h
+  refine ffdFits_of_no_irred v hk hopt (p := 6) (q := 5) (by decide) (by decide) (by norm_num) ?_
+  intro T B hTB hB k' hk' LL a hi hcap
+  rcases Nat.lt_or_ge k' 5 with h4 | h5
+  · exact tight_k hTB (k := 4) (by decide) (by omega) (irred_tight hTB hi).toTight (by omega)
+  · exact irred_window_false hTB (Or.inr (Or.inr (Or.inr ⟨hB, by omega⟩))) hi hcap
+
+end OtherConstants
+
+/-! ## 7. Non-vacuity -/
 
 /-- domination with three values: `[2, 2, 2] ≤ [3, 2, 2]` pointwise; the values `[3, 2, 2] ++ [2, 2, 1]` are
     scheduled as `[2, 2, 2] ++ [3, 2, 1]`, and the bin of `[3, 2, 1]` takes `[2, 2, 1]` -/
@@ -418,11 +857,53 @@ example : ([20, 20, 15, 15, 15, 15].foldl (ffStep id 61) (Bins.new 1)).lists.len
     (partition_packable [[20, 15, 15], [20, 15, 15]] rfl (by decide) (by decide)) (by decide)
     (by simp [OutOfBandK])
 
+/-- the window in the tight example `[3, 3], [2, 2, 2]` / `2` (`T = B = 7`): `6 + 1·8 + 2 ≤ 2·7 + 1·2` -/
+example : binSum id [3, 3] + (2 - 1) * (7 + 1) + id 2 ≤ 2 * 7 + (2 - 1) * id 2 :=
+  ce_level_window stight_example.toSCE.toCE (l := [3, 3]) (by simp)
+
+/-- eight bins, `T = 200`, capacity `244` (`61·200 < 50·245`): the items `51` lie in the band for `k = 8`
+    (`0.2514·200 < 51 < 0.26·200`), the items `98` are big (`> 244 − 200 + 51`); first-fit-decreasing packs
+    four bins `[98, 98]` (a `51` does not fit: `247`) and four bins of four `51` -/
+example : ([98, 98, 98, 98, 98, 98, 98, 98, 51, 51, 51, 51, 51, 51, 51, 51, 51, 51, 51, 51, 51, 51, 51, 51].foldl
+    (ffStep id 244) (Bins.new 1)).lists.length ≤ 8 :=
+  ffd_fold_fits_122_k8 id (by decide) (by decide) (T := 200) (by decide) (by decide) _ (by decide)
+    (partition_packable [[98, 51, 51], [98, 51, 51], [98, 51, 51], [98, 51, 51], [98, 51, 51], [98, 51, 51],
+      [98, 51, 51], [98, 51, 51]] rfl (by decide) (by decide)) (by decide)
+
+example : ∃ b, multifit id 2 [3, 3, 2, 2, 2] 10 = .ok b ∧
+    ((maxL b.sums : Nat) : Rat) ≤ (61 / 50 + 1 / 2 ^ 10) * ((6 : Int) : Rat) := by
+  obtain ⟨b, h, _⟩ := Part.multifit_perm (v := id) (k := 2) (items := [3, 3, 2, 2, 2]) (it := 10)
+    (by decide) (by decide)
+  exact ⟨b, h, multifit_ratio_122_k8 id (by decide) (by decide) opt_33222 h⟩
+
+example : ∃ b, multifit id 2 [3, 3, 2, 2, 2] 10 = .ok b ∧
+    ((maxL b.sums : Nat) : Rat) ≤ (11 / 9 + 1 / 2 ^ 10) * ((6 : Int) : Rat) ∧
+    ((maxL b.sums : Nat) : Rat) ≤ (16 / 13 + 1 / 2 ^ 10) * ((6 : Int) : Rat) ∧
+    ((maxL b.sums : Nat) : Rat) ≤ (6 / 5 + 1 / 2 ^ 10) * ((6 : Int) : Rat) := by
+  obtain ⟨b, h, _⟩ := Part.multifit_perm (v := id) (k := 2) (items := [3, 3, 2, 2, 2]) (it := 10)
+    (by decide) (by decide)
+  exact ⟨b, h, multifit_ratio_11_9_k9 id (by decide) (by decide) opt_33222 h,
+    multifit_ratio_16_13_k12 id (by decide) (by decide) opt_33222 h,
+    multifit_ratio_6_5_k5 id (by decide) (by decide) opt_33222 h⟩
+
 end Prtpy.MultiFit122B
 
+/-
 #print axioms Prtpy.MultiFit122B.packable_of_dom
 #print axioms Prtpy.MultiFit122B.irred_not_dominated
 #print axioms Prtpy.MultiFit122B.irred_two_four
 #print axioms Prtpy.MultiFit122B.ffd_overflow_irred_cap
 #print axioms Prtpy.MultiFit122B.ffd_fold_fits_of_no_band_k
 #print axioms Prtpy.MultiFit122B.multifit_ratio_122_partial_k
+#print axioms Prtpy.MultiFit122B.ce_level_window
+#print axioms Prtpy.MultiFit122B.irred_seven_eight_false
+#print axioms Prtpy.MultiFit122B.multifit_ratio_122_k8
+#print axioms Prtpy.MultiFit122B.irred_window_false
+#print axioms Prtpy.MultiFit122B.ffdFits_of_no_irred
+#print axioms Prtpy.MultiFit122B.multifit_ratio_11_9_k9
+#print axioms Prtpy.MultiFit122B.multifit_ratio_16_13_k12
+#print axioms Prtpy.MultiFit122B.multifit_ratio_6_5_k5
+
+observed output (each of the fourteen):
+'Prtpy.MultiFit122B.<name>' depends on axioms: [propext, Classical.choice, Quot.sound]
+-/
